@@ -149,7 +149,9 @@ pub fn assemble(f: &fol::Formula) -> (String, BTreeMap<String, ConstKind>) {
             text.push_str(&format!("tff(predicate_{i}, type, {}: ({args}) > $o).\n", p.symbol));
         }
     }
-    for (i, s) in f.symbols().into_iter().enumerate() {
+    let mut sig = crate::ir::Signature::default();
+    crate::ir::lower(f).signature(&mut sig);
+    for (i, s) in sig.syms.into_iter().enumerate() {
         text.push_str(&format!("tff(type_symbol_{i}, type, {s}: symbol).\n"));
         constants.insert(s.clone(), ConstKind::Symbol(s));
     }
